@@ -447,6 +447,150 @@ fn example_shape(h: &mut H) {
 	h.run.enum_block("Indicators/example::Example shape", n, 2, false, serde_json::json!("30 candles"), sink.into_violations());
 }
 
+/// IndicatorResult::new over every pair of slice lengths 0..=1100 (values) x {0, 1, 4, 5, 256, 260} (signals) and
+/// vice versa: the result carries min(len, SIZE) items, the first ones, in order
+fn result_constructor(h: &mut H) {
+	use yata::core::Action;
+	let sink = VioSink::new("IndicatorResult/new");
+	let size = IndicatorResult::SIZE;
+	let mut cases = 0u64;
+	let vals: Vec<yata::core::ValueType> = (0..1101).map(|i| i as yata::core::ValueType + 0.5).collect();
+	let sigs: Vec<Action> = (0..1101).map(|i| if i % 2 == 0 { Action::Buy((i % 255 + 1) as u8) } else { Action::Sell((i % 255 + 1) as u8) }).collect();
+	for a in 0..=1100usize {
+		for b in [0usize, 1, 3, 4, 5, 255, 256, 257, 260, 512, 1100] {
+			for (nv, ns) in [(a, b), (b, a)] {
+				cases += 1;
+				let r = match catch(|| IndicatorResult::new(&vals[..nv], &sigs[..ns])) {
+					Ok(r) => r,
+					Err(p) => {
+						sink.push("new/panic", format!("{nv} values, {ns} signals"), p.msg);
+						continue;
+					}
+				};
+				let (wv, ws) = (nv.min(size), ns.min(size));
+				let ok = r.values().len() == wv
+					&& r.signals().len() == ws
+					&& r.size() == (wv as u8, ws as u8)
+					&& r.values_length() as usize == wv
+					&& r.signals_length() as usize == ws
+					&& r.values().iter().zip(&vals[..wv]).all(|(x, y)| x.to_bits() == y.to_bits())
+					&& r.signals().iter().zip(&sigs[..ws]).all(|(x, y)| format!("{x:?}") == format!("{y:?}"));
+				if !ok {
+					sink.push("new/wrong-shape-or-content", format!("{nv} values, {ns} signals"), format!("size() = {:?}, values {:?}, signals {:?}", r.size(), r.values(), r.signals()));
+				}
+			}
+		}
+	}
+	h.run.enum_block("IndicatorResult::new over slice lengths 0..=1100", cases, cases, true, serde_json::json!("256 values, 4 signals"), sink.into_violations());
+}
+
+// ---- a user-defined indicator that overrides the provided `over` of both its configuration and its instance:
+// the dynamically dispatched forms must forward to these overrides, not re-implement the defaults
+mod user_defined {
+	use yata::core::{Candle, Error, IndicatorConfig, IndicatorInstance, IndicatorResult, OHLCV};
+	#[derive(Clone, Debug, Default)]
+	pub struct Tally {
+		pub bias: f64,
+	}
+	#[derive(Clone, Debug)]
+	pub struct TallyInstance {
+		cfg: Tally,
+		sum: f64,
+	}
+	impl IndicatorConfig for Tally {
+		type Instance = TallyInstance;
+		const NAME: &'static str = "Tally";
+		fn validate(&self) -> bool {
+			self.bias.is_finite()
+		}
+		fn set(&mut self, name: &str, value: String) -> Result<(), Error> {
+			match name {
+				"bias" => self.bias = value.parse().map_err(|_| Error::ParameterParse(name.to_string(), value))?,
+				_ => return Err(Error::ParameterParse(name.to_string(), value)),
+			}
+			Ok(())
+		}
+		fn size(&self) -> (u8, u8) {
+			(1, 0)
+		}
+		fn init<T: OHLCV>(self, _candle: &T) -> Result<Self::Instance, Error> {
+			Ok(TallyInstance { cfg: self, sum: 0.0 })
+		}
+		/// the override: batches are marked by adding 1000 to every value
+		fn over<T, S>(self, inputs: S) -> Result<Vec<IndicatorResult>, Error>
+		where
+			T: OHLCV,
+			S: AsRef<[T]>,
+			Self: Sized,
+		{
+			let inputs = inputs.as_ref();
+			let Some(first) = inputs.first() else { return Ok(vec![]) };
+			let mut i = self.init(first)?;
+			Ok(inputs.iter().map(|c| IndicatorResult::new(&[i.next(c).value(0) + 1000.0], &[])).collect())
+		}
+	}
+	impl IndicatorInstance for TallyInstance {
+		type Config = Tally;
+		fn config(&self) -> &Self::Config {
+			&self.cfg
+		}
+		fn next<T: OHLCV>(&mut self, candle: &T) -> IndicatorResult {
+			self.sum += candle.close() as f64 + self.cfg.bias;
+			IndicatorResult::new(&[self.sum as yata::core::ValueType], &[])
+		}
+		/// the override: the running sum restarts with every batch
+		fn over<T, S>(&mut self, inputs: S) -> Vec<IndicatorResult>
+		where
+			T: OHLCV,
+			S: AsRef<[T]>,
+			Self: Sized,
+		{
+			self.sum = 0.0;
+			inputs.as_ref().iter().map(|c| self.next(c)).collect()
+		}
+	}
+	pub fn candles() -> Vec<Candle> {
+		(0..7).map(|i| Candle { open: 1.0, high: 2.0, low: 0.5, close: 1.0 + i as yata::core::ValueType, volume: 1.0 }).collect()
+	}
+}
+
+fn user_defined_dyn(h: &mut H) {
+	use user_defined::*;
+	use yata::core::{IndicatorConfig, IndicatorConfigDyn, IndicatorInstance, IndicatorInstanceDyn};
+	let sink = VioSink::new("Dyn/user-defined-indicator");
+	let cs = candles();
+	let bits = |v: &[IndicatorResult]| v.iter().map(res_bits).collect::<Vec<_>>();
+	let cfg = Tally { bias: 0.25 };
+	// configuration level
+	let st = IndicatorConfig::over(cfg.clone(), &cs).map(|v| bits(&v));
+	let dy = { let d: Box<dyn IndicatorConfigDyn<Candle>> = Box::new(cfg.clone()); d.over(&cs).map(|v| bits(&v)) };
+	if format!("{st:?}") != format!("{dy:?}") {
+		sink.push("config-over/dyn-bypasses-the-override", "Tally{bias: 0.25}.over(7 candles)".into(), format!("static {st:?} vs dynamic {dy:?}"));
+	}
+	// instance level, two batches
+	let mut a = cfg.clone().init(&cs[0]).unwrap();
+	let s1 = bits(&IndicatorInstance::over(&mut a, &cs[..3]));
+	let s2 = bits(&IndicatorInstance::over(&mut a, &cs[3..]));
+	let mut d: Box<dyn IndicatorInstanceDyn<Candle>> = Box::new(cfg.clone().init(&cs[0]).unwrap());
+	let d1 = bits(&d.over(&cs[..3].to_vec()));
+	let d2 = bits(&d.over(&cs[3..].to_vec()));
+	if s1 != d1 || s2 != d2 {
+		sink.push("instance-over/dyn-bypasses-the-override", "two batches of 3 and 4 candles".into(), format!("static {s1:?} {s2:?} vs dynamic {d1:?} {d2:?}"));
+	}
+	// next / name / size / config through dyn
+	let mut b = cfg.clone().init(&cs[0]).unwrap();
+	let mut e: Box<dyn IndicatorInstanceDyn<Candle>> = Box::new(cfg.clone().init(&cs[0]).unwrap());
+	for c in &cs {
+		if res_bits(&IndicatorInstance::next(&mut b, c)) != res_bits(&e.next(c)) {
+			sink.push("instance-next/dyn-differs", "next".into(), String::new());
+		}
+	}
+	if e.name() != "Tally" || e.size() != (1, 0) {
+		sink.push("instance/dyn-name-or-size", "name/size".into(), format!("{} {:?}", e.name(), e.size()));
+	}
+	h.run.enum_block("user-defined indicator overriding `over`: static vs dynamic dispatch", 4, 4, true, serde_json::json!("Tally"), sink.into_violations());
+}
+
 fn main() {
 	let mut h = H::start("C11");
 	let thorough = h.thorough();
@@ -457,6 +601,8 @@ fn main() {
 	if !h.is_replay() {
 		setters(&mut h);
 		example_shape(&mut h);
+		result_constructor(&mut h);
+		user_defined_dyn(&mut h);
 	}
 	let ks = alpha::k_candles();
 	h.go(&ShSys { cfgs: defaults(), alphabet: ks.clone(), tag: "defaults".into() }, &Limits::depth(if thorough { 5 } else { 3 }).wall_secs(600), true);
